@@ -1307,3 +1307,321 @@ Definition req_creator (r : req) : creator :=
   | RqStatic c _ | RqTree c _ | RqDefine c _ _ _ _ => c
   | RqGlob s _ _ | RqAmend s _ _ _ => CStep s
   end.
+
+(* ------------------------------------------------------------------------------------------ *)
+(* 3b. Request-level commutation: static tree versus build product (probe = path, ow = false)   *)
+(* ------------------------------------------------------------------------------------------ *)
+
+Section Commute.
+
+Variable gm : str -> str -> bool.
+Variable gr : bool.
+
+Lemma bind_ok_r {A} (x : res A) : bind x (fun a => Ok a) = x.
+Proof. destruct x; reflexivity. Qed.
+
+(* amend_step(step, out_paths=[p]) / amend_step(step, vol_paths=[p]) *)
+Definition amend1 (s : str) (r : role) (p : str) : req :=
+  match r with RVolatile => RqAmend s [] [] [p] | _ => RqAmend s [] [p] [] end.
+
+Definition amend1_sem (s : str) (r : role) (p : str) (st : state) : res state :=
+  bind (require_step st (CStep s)) (fun _ =>
+  bind (check_decl st (WNode (CStep s)) p r) (fun is_new =>
+  if is_new
+  then bind (glob_check gm (globs st) s [p]) (fun _ => declare_file false (CStep s) r st p)
+  else Ok st)).
+
+Lemma amend1_spec s r p st :
+  product_role r = true -> step gm false gr st (amend1 s r p) = amend1_sem s r p st.
+Proof.
+  intros Hr. destruct r; try discriminate; cbn [amend1 step]; unfold amend_step, amend1_sem;
+    destruct (require_step st (CStep s)); cbn [bind]; try reflexivity;
+    cbn [sort_uniq fold_right insert_uniq dir_inputs find_first fold_res bind check_all].
+  - destruct (check_decl st (WNode (CStep s)) p ROutput) as [b|m]; cbn [bind]; [|reflexivity].
+    destruct b; cbn [app overlap_check find_first mem_str bind sort_uniq fold_right insert_uniq fold_res].
+    + destruct (glob_check gm (globs st) s [p]); cbn [bind]; [|reflexivity].
+      destruct (declare_file false (CStep s) ROutput st p); reflexivity.
+    + rewrite glob_check_nil. reflexivity.
+  - destruct (check_decl st (WNode (CStep s)) p RVolatile) as [b|m]; cbn [bind]; [|reflexivity].
+    destruct b; cbn [app overlap_check find_first mem_str bind sort_uniq fold_right insert_uniq fold_res].
+    + destruct (glob_check gm (globs st) s [p]); cbn [bind]; [|reflexivity].
+      destruct (declare_file false (CStep s) RVolatile st p); reflexivity.
+    + rewrite glob_check_nil. reflexivity.
+Qed.
+
+(* register_static_tree split into its decision and the state it builds *)
+Inductive tree_case := TNoop | TNew | TErr (m : msg).
+
+Definition tree_decide (c : creator) (path : str) (st : state) : tree_case :=
+  match require_step st c with Err m => TErr m | Ok _ =>
+  if str_eqb path stepup_dir || is_prefix stepup_prefix path then TErr (MStepupTree path) else
+  let d := with_slash path in
+  if str_eqb d [46; SLASH] || str_eqb d [] then TErr MTreeRoot else
+  if str_eqb d [SLASH] then TErr MTreeFsRoot else
+  match find_owner false st d with
+  | Err m => TErr m
+  | Ok (Some (t, tc)) =>
+      if creator_eqb tc c then TNoop
+      else if str_eqb t d then
+        match phrase_of tc, phrase_of c with
+        | Ok a, Ok b => let (c1, c2) := sort2_str a b in TErr (MDupTree d c1 c2)
+        | Err m, _ => TErr m
+        | _, Err m => TErr m
+        end
+      else TErr (MTreeSub d)
+  | Ok None =>
+      if existsb (fun tc => is_prefix d (fst tc)) (trees st) then TErr (MTreeParent d) else
+      match min_entry (filter (offending c) (filter (fun pc => is_prefix d (fst pc)) (claims st))) with
+      | Some (p, cl) => if negb (role_eqb (c_role cl) RStatic) then TErr (MTreeProduct d p)
+                        else TErr (MTreeFile d p)
+      | None => TNew
+      end
+  end end.
+
+Definition tree_state (c : creator) (d : str) (st : state) : state :=
+  mkState (handover d (claims st)) (loose st) ((d, c) :: trees st) (steps st) (globs st).
+
+Lemma register_tree_decide c path st :
+  register_tree false c path st =
+  match tree_decide c path st with
+  | TNoop => Ok st
+  | TErr m => Err m
+  | TNew => declare_static_files false (CTree (with_slash path)) (tree_state c (with_slash path) st)
+              (filter (is_prefix (with_slash path)) (loose st))
+  end.
+Proof.
+  unfold register_tree, tree_decide.
+  destruct (require_step st c); cbn [bind]; [|reflexivity].
+  destruct (str_eqb path stepup_dir || is_prefix stepup_prefix path); [reflexivity|].
+  cbv zeta.
+  destruct (str_eqb (with_slash path) [46; SLASH] || str_eqb (with_slash path) []); [reflexivity|].
+  destruct (str_eqb (with_slash path) [SLASH]); [reflexivity|].
+  destruct (find_owner false st (with_slash path)) as [[[t tc]|]|m]; cbn [bind]; try reflexivity.
+  - destruct (creator_eqb tc c); [reflexivity|]. destruct (str_eqb t (with_slash path)); [|reflexivity].
+    destruct (phrase_of tc) as [x|]; [destruct (phrase_of c) as [y|]|]; try reflexivity. destruct (sort2_str x y). reflexivity.
+  - destruct (existsb (fun tc => is_prefix (with_slash path) (fst tc)) (trees st)); [reflexivity|].
+    destruct (min_entry _) as [[p cl]|]; [destruct (negb (role_eqb (c_role cl) RStatic)); reflexivity|].
+    reflexivity.
+Qed.
+
+Lemma declare_static_files_nil c st : declare_static_files false c st [] = Ok st.
+Proof. reflexivity. Qed.
+
+End Commute.
+
+Section Commute2.
+
+Variable gm : str -> str -> bool.
+Variable gr : bool.
+
+Lemma run2 ow st a b :
+  run gm ow gr st [a; b] = bind (step gm ow gr st a) (fun s1 => step gm ow gr s1 b).
+Proof.
+  unfold run. cbn [fold_res]. destruct (step gm ow gr st a) as [s1|]; cbn [bind]; [|reflexivity].
+  destruct (step gm ow gr s1 b); reflexivity.
+Qed.
+
+Lemma check_decl_true_none st w p r : check_decl st w p r = Ok true -> lookup p (claims st) = None.
+Proof.
+  unfold check_decl. destruct (lookup p (claims st)) as [cl|]; [|reflexivity].
+  destruct w as [c|ph]; [|discriminate].
+  destruct (role_eqb (c_role cl) r && creator_eqb (c_by cl) c); [discriminate|].
+  destruct (decl_of_node r c); discriminate.
+Qed.
+
+Lemma declare_file_ok_inv c0 r st p st2 :
+  (forall t, c0 <> CTree t) -> declare_file false c0 r st p = Ok st2 ->
+  st2 = set_claim st p (mkClaim r c0) /\
+  role_eqb r RVolatile && ends_with_c SLASH p = false /\
+  find_owner false st p = Ok None /\
+  is_prefix stepup_prefix p = false /\ bad_name p = None /\
+  lookup p (claims st) = None /\
+  role_eqb r RVolatile && mem_str p (loose st) = false.
+Proof.
+  intros Hc H. unfold declare_file in H.
+  destruct (role_eqb r RVolatile && ends_with_c SLASH p) eqn:F1; [discriminate|].
+  destruct c0 as [|l|t]; [| |exfalso; eapply Hc; eauto].
+  - dres H. apply owner_guard_ok in E. inversion H. repeat split; auto.
+  - dres H. apply owner_guard_ok in E. inversion H. repeat split; auto.
+Qed.
+
+Lemma handover_keep d cls p cl :
+  In (p, cl) cls -> is_prefix d p = false -> In (p, cl) (handover d cls).
+Proof.
+  intros Hin Hp. unfold handover. apply in_map_iff. exists (p, cl). cbn. rewrite Hp. auto.
+Qed.
+
+Lemma lookup_handover_none d cls p : lookup p cls = None -> lookup p (handover d cls) = None.
+Proof.
+  induction cls as [|[q cl] cls IH]; cbn; [auto|].
+  destruct (str_eqb p q) eqn:E; [discriminate|]. intros H.
+  destruct (is_prefix d q); cbn; rewrite E; auto.
+Qed.
+
+Lemma filter_filter_nil {A} (f g : A -> bool) l : filter f l = [] -> filter f (filter g l) = [].
+Proof.
+  induction l as [|x l IH]; cbn; [auto|]. destruct (f x) eqn:E; [discriminate|]. intros H.
+  destruct (g x); cbn; rewrite ?E; auto.
+Qed.
+
+Lemma tree_decide_noop_set_claim c path st p cl :
+  tree_decide c path st = TNoop -> tree_decide c path (set_claim st p cl) = TNoop.
+Proof.
+  unfold tree_decide. unfold require_step, step_exists, find_owner, owners.
+  cbn [set_claim steps trees claims].
+  destruct (match c with CRoot => true | CStep l => match lookup l (steps st) with Some _ => true | None => false end | CTree _ => false end);
+    [|discriminate].
+  destruct (str_eqb path stepup_dir || is_prefix stepup_prefix path); [discriminate|]. cbv zeta.
+  destruct (str_eqb (with_slash path) [46; SLASH] || str_eqb (with_slash path) []); [discriminate|].
+  destruct (str_eqb (with_slash path) [SLASH]); [discriminate|].
+  destruct (filter (fun tc : str * creator => is_prefix (fst tc) (probe false (with_slash path))) (trees st))
+    as [|[t tc] [|x l]]; try discriminate.
+  - destruct (existsb (fun tc : str * creator => is_prefix (with_slash path) (fst tc)) (trees st)); [discriminate|].
+    destruct (min_entry _) as [[q cl']|]; [destruct (negb (role_eqb (c_role cl') RStatic)); discriminate|discriminate].
+  - auto.
+Qed.
+
+Lemma tree_decide_new_set_claim c path st p cl :
+  tree_decide c path st = TNew ->
+  tree_decide c path (set_claim st p cl) =
+    if is_prefix (with_slash path) p && offending c (p, cl)
+    then (if negb (role_eqb (c_role cl) RStatic) then TErr (MTreeProduct (with_slash path) p)
+          else TErr (MTreeFile (with_slash path) p))
+    else TNew.
+Proof.
+  unfold tree_decide. unfold require_step, step_exists, find_owner, owners.
+  cbn [set_claim steps trees claims].
+  destruct (match c with CRoot => true | CStep l => match lookup l (steps st) with Some _ => true | None => false end | CTree _ => false end);
+    [|discriminate].
+  destruct (str_eqb path stepup_dir || is_prefix stepup_prefix path); [discriminate|]. cbv zeta.
+  destruct (str_eqb (with_slash path) [46; SLASH] || str_eqb (with_slash path) []); [discriminate|].
+  destruct (str_eqb (with_slash path) [SLASH]); [discriminate|].
+  destruct (filter (fun tc : str * creator => is_prefix (fst tc) (probe false (with_slash path))) (trees st))
+    as [|[t tc] [|x l]]; try discriminate.
+  - destruct (existsb (fun tc : str * creator => is_prefix (with_slash path) (fst tc)) (trees st)); [discriminate|].
+    destruct (min_entry (filter (offending c) (filter (fun pc => is_prefix (with_slash path) (fst pc)) (claims st))))
+      as [[q cl']|] eqn:Emin; [destruct (negb (role_eqb (c_role cl') RStatic)); discriminate|].
+    intros _. apply min_entry_none in Emin. cbn [filter fst].
+    destruct (is_prefix (with_slash path) p); cbn [andb filter].
+    + destruct (offending c (p, cl)); [rewrite Emin; reflexivity|rewrite Emin; reflexivity].
+    + rewrite Emin. reflexivity.
+  - destruct (creator_eqb tc c); [discriminate|]. destruct (str_eqb t (with_slash path)); [|discriminate].
+    destruct (phrase_of tc) as [x|]; [destruct (phrase_of c) as [y|]|]; try discriminate.
+    destruct (sort2_str x y). discriminate.
+Qed.
+
+Lemma step_not_tree s : forall t, CStep s <> CTree t.
+Proof. intros t H. discriminate H. Qed.
+
+Lemma tree_decide_new_facts c path st :
+  tree_decide c path st = TNew ->
+  filter (offending c) (filter (fun pc => is_prefix (with_slash path) (fst pc)) (claims st)) = [] /\
+  find_owner false st (with_slash path) = Ok None.
+Proof.
+  unfold tree_decide.
+  destruct (require_step st c); [|discriminate].
+  destruct (str_eqb path stepup_dir || is_prefix stepup_prefix path); [discriminate|]. cbv zeta.
+  destruct (str_eqb (with_slash path) [46; SLASH] || str_eqb (with_slash path) []); [discriminate|].
+  destruct (str_eqb (with_slash path) [SLASH]); [discriminate|].
+  destruct (find_owner false st (with_slash path)) as [[[t tc]|]|m]; try discriminate.
+  - destruct (creator_eqb tc c); [discriminate|]. destruct (str_eqb t (with_slash path)); [|discriminate].
+    destruct (phrase_of tc) as [x|]; [destruct (phrase_of c) as [y|]|]; try discriminate.
+    destruct (sort2_str x y). discriminate.
+  - destruct (existsb (fun tc : str * creator => is_prefix (with_slash path) (fst tc)) (trees st)); [discriminate|].
+    destruct (min_entry _) as [[q cl']|] eqn:Emin; [destruct (negb (role_eqb (c_role cl') RStatic)); discriminate|].
+    intros _. split; [now apply min_entry_none|reflexivity].
+Qed.
+
+Definition both (a b : res state) : Prop :=
+  match a, b with
+  | Ok s1, Ok s2 => s1 = s2
+  | Err m1, Err m2 => m1 = m2
+  | _, _ => False
+  end.
+
+(* Static tree versus amended output / volatile output (any creators, the same step included):
+   from any state satisfying the invariant in which each request is acceptable on its own, and
+   which holds no undeclared input under the new tree, the plan is rejected in both orders with
+   the same structured message or accepted in both orders with the SAME final state. *)
+Theorem tree_product_commute st c path s r p :
+  Inv gm gr st -> product_role r = true ->
+  filter (is_prefix (with_slash path)) (loose st) = [] ->
+  accepted (step gm false gr st (RqTree c path)) = true ->
+  accepted (step gm false gr st (amend1 s r p)) = true ->
+  both (run gm false gr st [RqTree c path; amend1 s r p])
+       (run gm false gr st [amend1 s r p; RqTree c path]).
+Proof.
+  intros HI Hr Hloose H1 H2. rewrite !run2. rewrite (amend1_spec gm gr s r p st Hr) in *.
+  cbn [step] in *. rewrite (register_tree_decide c path st) in *.
+  set (d := with_slash path) in *.
+  unfold amend1_sem in H2 at 1.
+  destruct (require_step st (CStep s)) as [[]|] eqn:Ers; cbn [bind accepted] in H2; [|discriminate H2].
+  destruct (check_decl st (WNode (CStep s)) p r) as [b|] eqn:Ecd; cbn [bind accepted] in H2; [|discriminate H2].
+  assert (Hsem : amend1_sem gm s r p st =
+                 if b then bind (glob_check gm (globs st) s [p]) (fun _ => declare_file false (CStep s) r st p)
+                 else Ok st).
+  { unfold amend1_sem. rewrite Ers. cbn [bind]. rewrite Ecd. reflexivity. }
+  rewrite Hsem.
+  destruct (tree_decide c path st) eqn:ED; [| |cbn in H1; discriminate H1].
+  - (* the tree request is a no-op *)
+    cbn [bind]. rewrite (amend1_spec gm gr s r p st Hr), Hsem.
+    destruct b.
+    + destruct (glob_check gm (globs st) s [p]); cbn [bind accepted] in *; [|discriminate H2].
+      destruct (declare_file false (CStep s) r st p) as [st2|] eqn:Edf; cbn [accepted] in H2; [|discriminate H2].
+      cbn [bind]. destruct (declare_file_ok_inv _ _ _ _ _ (step_not_tree s) Edf) as [-> _].
+      rewrite register_tree_decide, (tree_decide_noop_set_claim _ _ _ _ _ ED). reflexivity.
+    + cbn [bind]. rewrite register_tree_decide, ED. reflexivity.
+  - (* a new tree *)
+    fold d. rewrite Hloose, declare_static_files_nil. cbn [bind].
+    rewrite (amend1_spec gm gr s r p _ Hr).
+    destruct (tree_decide_new_facts _ _ _ ED) as [Hnooff Hown]. fold d in Hnooff, Hown.
+    unfold amend1_sem.
+    assert (Ers1 : require_step (tree_state c d st) (CStep s) = Ok tt) by exact Ers.
+    rewrite Ers1. cbn [bind].
+    assert (Hnr : role_eqb r RStatic = false) by (destruct r; try discriminate; reflexivity).
+    destruct b.
+    + (* the product is new *)
+      destruct (glob_check gm (globs st) s [p]) as [[]|] eqn:Egc; cbn [bind accepted] in H2; [|discriminate H2].
+      destruct (declare_file false (CStep s) r st p) as [st2|] eqn:Edf; cbn [accepted] in H2; [|discriminate H2].
+      destruct (declare_file_ok_inv _ _ _ _ _ (step_not_tree s) Edf) as [-> [F1 [F2 [F3 [F4 [F5 F6]]]]]].
+      cbn [bind].
+      assert (Ecd1 : check_decl (tree_state c d st) (WNode (CStep s)) p r = Ok true).
+      { unfold check_decl. cbn [claims tree_state]. now rewrite (lookup_handover_none d _ p F5). }
+      rewrite Ecd1. cbn [bind].
+      change (globs (tree_state c d st)) with (globs st). rewrite Egc. cbn [bind].
+      rewrite register_tree_decide, (tree_decide_new_set_claim _ _ _ _ _ ED). fold d.
+      assert (Hoff : offending c (p, mkClaim r (CStep s)) = true).
+      { unfold offending. cbn. now rewrite Hnr. }
+      rewrite Hoff, andb_true_r. cbn [c_role]. rewrite Hnr. cbn [negb].
+      assert (Hown1 : find_owner false (tree_state c d st) p =
+                      if is_prefix d p then Ok (Some (d, c)) else Ok None).
+      { unfold find_owner, owners, probe in *. cbn [trees tree_state filter fst].
+        destruct (filter (fun tc : str * creator => is_prefix (fst tc) p) (trees st)) as [|x [|y l]];
+          [|discriminate F2|discriminate F2].
+        destruct (is_prefix d p); reflexivity. }
+      unfold declare_file. rewrite F1, Hown1.
+      destruct (is_prefix d p) eqn:Edp; cbn [bind].
+      * rewrite Hnr. reflexivity.
+      * rewrite F3, F4. cbn [claims tree_state]. rewrite (lookup_handover_none d _ p F5).
+        change (loose (tree_state c d st)) with (loose st). rewrite F6.
+        cbn [loose set_claim]. unfold remove_str.
+        rewrite (filter_filter_nil (is_prefix d) (fun x => negb (str_eqb p x)) (loose st) Hloose).
+        rewrite declare_static_files_nil. cbn [both].
+        unfold set_claim, tree_state, handover. cbn [claims loose trees steps globs map fst snd].
+        now rewrite Edp.
+    + (* the product is already held by the step *)
+      cbn [bind]. rewrite register_tree_decide, ED. fold d. rewrite Hloose, declare_static_files_nil.
+      pose proof (check_decl_false_held _ _ _ _ Ecd) as Hin.
+      assert (Hndp : is_prefix d p = false).
+      { destruct (is_prefix d p) eqn:E; [|reflexivity]. exfalso.
+        assert (Hu : In (p, mkClaim r (CStep s)) (filter (fun pc => is_prefix d (fst pc)) (claims st))).
+        { apply filter_In. split; auto. }
+        pose proof (filter_nil _ _ Hnooff _ Hu) as Hf. unfold offending in Hf. cbn in Hf.
+        rewrite Hnr in Hf. discriminate Hf. }
+      assert (Ecd1 : check_decl (tree_state c d st) (WNode (CStep s)) p r = Ok false).
+      { apply check_decl_held.
+        - cbn [claims tree_state]. rewrite handover_keys. apply (inv_uniq _ _ _ HI).
+        - cbn [claims tree_state]. now apply handover_keep. }
+      rewrite Ecd1. reflexivity.
+Qed.
+End Commute2.
